@@ -453,6 +453,23 @@ class TransformationInstructionsGenerator:
         transformations.append(trans_rule)
     if producer_trans_rule.consumers:
       transformations.insert(0, producer_trans_rule)
+    elif (
+        not transformations
+        and producer_trans_rule.transformation
+        == qtyping.QuantTransformation.ADD_DEQUANTIZE
+    ):
+      # Nothing reads the tensor (e.g. an unused result of a SPLIT): there is
+      # nothing to dequantize for, but the producer still writes quantized
+      # values, so the tensor itself must be quantized.
+      transformations.append(
+          qtyping.TransformationInst(
+              qtyping.QuantTransformation.QUANTIZE_TENSOR,
+              producer_trans_rule.tensor_id,
+              producer_trans_rule.producer,
+              producer_trans_rule.consumers,
+              producer_trans_rule.parameters,
+          )
+      )
     return transformations
 
   def _quant_params_to_transformation_insts(
